@@ -27,7 +27,7 @@ for p in props:
             "thorough_cmd": f"./check {pid} --tier thorough",
             "evidence_file": f"evidence/{pid}.json",
             "replay_cmd_template": "./check " + pid + " --replay {path}", "engine": "pyvc",
-            "level_claimed": {"category": "proof", "text": c['text'], "design_ref": f"DESIGN.md section 7 ({pid}) and section 13"},
+            "level_claimed": {"category": c.get('category', 'proof'), "text": c['text'], "design_ref": f"DESIGN.md section 7 ({pid}) and section 13"},
             "level_note": c['note'], "technique": TECH})
     else:
         na = json.load(open(os.path.join(V, 'tools', 'not_applicable.json')))
